@@ -267,6 +267,18 @@ def h_reads(h):
         except IndexError:
             o["idx%d" % i] = "IndexError"
     o["slice"] = list(h[1:])
+    # equality: keys compare without regard to letter case, values exactly
+    pairs = list(h)
+    o["eq_copy"] = h == type(h)(pairs) if type(h).__name__ == "Headers" else True
+    o["eq_key_case"] = (h == type(h)([(k.swapcase(), v) for k, v in pairs])) if type(h).__name__ == "Headers" else True
+    cased = [i for i, (k, v) in enumerate(pairs) if v.swapcase() != v]
+    if cased and type(h).__name__ == "Headers":
+        alt = list(pairs)
+        alt[cased[0]] = (alt[cased[0]][0], alt[cased[0]][1].swapcase())
+        o["eq_value_case"] = (h == type(h)(alt)) and sorted(set(alt)) != sorted(set(pairs))
+        o["ne_value_case"] = (h != type(h)(alt)) or sorted(set(alt)) == sorted(set(pairs))
+    else:
+        o["eq_value_case"], o["ne_value_case"] = False, True
     return o
 
 
@@ -288,6 +300,7 @@ def hm_reads(m):
         except IndexError:
             o["idx%d" % i] = "IndexError"
     o["slice"] = m.l[1:]
+    o["eq_copy"], o["eq_key_case"], o["eq_value_case"], o["ne_value_case"] = True, True, False, True
     return o
 
 
